@@ -410,6 +410,13 @@ func ffgOp(op, pat string, args []string, a *argTrack) string {
 // raw limb-level ops: operands are Montgomery limbs as given (canonical unless the generator says otherwise)
 func ffgRawOp(op, pat string, args []string, a *argTrack) string {
 	lim := func(i int) ffg.Element { return ffgLimbs(args[i]) }
+	// "api:<backend>" / "zx:<backend>": the back-end name is information for the Lean side only
+	if i := strings.IndexByte(pat, ':'); i >= 0 {
+		pat = pat[:i]
+	}
+	if pat == "api" {
+		pat = ""
+	}
 	switch op {
 	case "mul":
 		need(args, 2)
